@@ -259,9 +259,10 @@ def cert_blob(spec, tag=b''):
     else:
         out = string(b'ssh-ed25519-cert-v01@openssh.com') + string(nonce) + string(hashlib.sha256(b'ed25519' + tag).digest())
     out += u64(spec.get('serial', 1)) + u32(spec.get('cert_type', 2)) + string(spec.get('key_id', 'host-key-id'))
-    out += string(string(spec.get('principal', 'host.example')))
-    out += u64(0) + u64(0xffffffffffffffff)
-    out += string(b'') + string(b'') + string(b'')
+    principals = spec['principals'] if 'principals' in spec else [spec.get('principal', 'host.example')]
+    out += string(b''.join(string(x) for x in principals))
+    out += u64(spec.get('valid_after', 0)) + u64(spec.get('valid_before', 0xffffffffffffffff))
+    out += string(bytes.fromhex(spec.get('critical_options_hex', ''))) + string(bytes.fromhex(spec.get('extensions_hex', ''))) + string(b'')
     out += string(ca)
     out += string(string(b'ssh-ed25519') + string(b'\x55' * 64))
     return out
